@@ -264,14 +264,18 @@ def build_operand(t, kindname, B, role="self"):
     raise ValueError(kindname)
 
 
-def build_lazy_other(members, rep, B):
-    """another operand of a lazy-stack self, given by its slices along self's stack dim (0), in a chosen representation:
-    ["lazy", d] a lazy stack along batch dim d (d = 0: like self; d > 0: the same content stacked lazily along another dim),
-    ["regular"] a dense TensorDict, ["tc"] a tensorclass.  Whatever the representation, slice i along dim 0 is member i."""
-    if rep[0] == "lazy" and rep[1] == 0:
-        return build_lazy(members, B)
+LAZY_SELF_ID = 7          # the object id of the lazy stack itself (entries have ids 8k + member index)
+
+
+def build_lazy_other(members, rep, B, sd=0):
+    """another operand of a lazy-stack self, given by its slices along self's stack dim sd, in a chosen representation:
+    ["lazy", d] a lazy stack along batch dim d (d = sd: like self, the members themselves; d != sd: the same content stacked
+    lazily along another dim), ["regular"] a dense TensorDict, ["tc"] a tensorclass.  Whatever the representation, slice i
+    along dim sd is member i."""
+    if rep[0] == "lazy" and rep[1] == sd:
+        return build_lazy(members, B, sd)
     tds = [build_td(m, B) for m in members]
-    dense = torch.stack(tds, 0).contiguous()
+    dense = torch.stack(tds, sd).contiguous()
     for (path, e) in walk(members[0]):
         if e[0] == "L":
             B.ptrs[dense.get(path).untyped_storage().data_ptr()] = e[1]
@@ -291,15 +295,38 @@ def build_lazy_other(members, rep, B):
     return out
 
 
-def build_lazy(members, B):
+def build_lazy(members, B, sd=0, name=None, ident_=None):
     tds = []
     for m in members:
         td = build_td(m, B)
         apply_locks(td, m)
         tds.append(td)
-    ls = LazyStackedTensorDict(*tds, stack_dim=0)
+    ls = LazyStackedTensorDict(*tds, stack_dim=sd, stack_dim_name=name)
+    if ident_ is not None:
+        B.objs[id(ls)] = ident_
     B.keep.append(ls)
     return ls
+
+
+def build_lazy_out(members, rep, B, sd=0):
+    """out= of a call on a lazy stack: "lazy" a lazy stack along sd, "short" one with a member less, "tc" a lazily stacked
+    tensorclass (a tensorclass around a lazy stack), "other" a dense TensorDict"""
+    if rep == "short":
+        members = members[:-1]
+    if rep in ("lazy", "short"):
+        return build_lazy(members, B, sd)
+    tds = []
+    for m in members:
+        td = build_td(m, B)
+        apply_locks(td, m)
+        tds.append(td)
+    if rep == "other":
+        out = torch.stack(tds, sd).contiguous()
+    else:
+        cls = tc_class([k for k, _ in members[0][3]])
+        out = LazyStackedTensorDict.lazy_stack([cls._from_tensordict(td) for td in tds], sd)
+    B.keep.append(out)
+    return out
 
 
 # ------------------------------------------------------------------ canonical observation
@@ -354,6 +381,8 @@ def obs(x, B, seen=None, with_ident=True, light=False):
         td = x._tensordict          # tensorclass: observed as its tensordict
     if isinstance(x, TensorDictParams):
         td = x._param_td
+    if isinstance(td, LazyStackedTensorDict):
+        return obs(td, B, seen + (id(x),), with_ident, light)       # a lazily stacked tensorclass: its members
     out = []
     for k in td.keys():
         v = td._get_str(k, None) if hasattr(td, "_get_str") else td.get(k)
